@@ -103,27 +103,11 @@ Definition classify_number (t : list N) : option tok :=
   end.
 
 (* ---- string literals ---- *)
-(* len(string(r)) for a rune as Go converts it *)
-Definition rune_golen (r : N) : Z := Z.of_nat (length (encode_rune r)).
-Definition runes_golen (rs : list N) : Z := fold_right (fun r a => (rune_golen r + a)%Z) 0%Z rs.
 
-(* strconv.ParseInt(s, 16, 32) on a string given as runes: optional sign, at least one hex digit *)
-Definition parse_int16_32 (rs : list N) : option Z :=
-  let body sgn ds :=
-    if Nat.ltb 0 (length ds) && forallb is_hexdigit ds then
-      let v := (sgn * Z.of_N (digits_val 16 ds))%Z in
-      if (Z.leb (-2147483648) v && Z.leb v 2147483647)%bool then Some v else None
-    else None in
-  match rs with
-  | 43 :: ds => body 1%Z ds
-  | 45 :: ds => body (-1)%Z ds
-  | ds => body 1%Z ds
-  end.
-
-(* bytes.Buffer.WriteRune(rune(i)) for an int i that may be negative or out of range *)
-Definition write_rune_z (i : Z) : list N :=
-  if (i <? 0)%Z then [239; 191; 189] else encode_rune (Z.to_N i).
-Definition byte_of_z (i : Z) : N := Z.to_N (i mod 256).
+(* strconv.ParseUint(s, 16, 32) on a string given as runes: at least one hex digit, nothing else *)
+Definition parse_uint16_32 (rs : list N) : option N :=
+  if Nat.ltb 0 (length rs) && forallb is_hexdigit rs && (digits_val 16 rs <? 4294967296)
+  then Some (digits_val 16 rs) else None.
 
 Definition simple_esc (c : N) : option N :=
   if c =? 97 then Some 7 else if c =? 98 then Some 8 else if c =? 102 then Some 12
@@ -177,7 +161,7 @@ Definition string_step (quote : N) (pos : nat) (rest : list N) (st : sstate) : s
     let p1 := (pos + sz)%nat in
     if c =? 10 then SStop (SNewline st)
     else if c =? quote then SStop (SDone p1 st)
-    else if c =? 0 then SCont p1 r1 (report st (Z.of_nat p1 - 1))
+    else if c =? 0 then SCont p1 r1 (report st (Z.of_nat pos))
     else if negb (c =? 92) then SCont p1 r1 (emit st (encode_rune c))
     else
       match r1 with
@@ -191,7 +175,7 @@ Definition string_step (quote : N) (pos : nat) (rest : list N) (st : sstate) : s
           | [] => SStop (SEof st)
           | _ =>
             let '(c1, sz1) := decode_rune r2 in
-            if (c1 =? quote) || (c1 =? 92) then SCont p2 r2 (report st (Z.of_nat p2 - 2))
+            if (c1 =? quote) || (c1 =? 92) then SCont p2 r2 (report st (Z.of_nat pos))
             else
               let r3 := skipn sz1 r2 in
               let p3 := (p2 + sz1)%nat in
@@ -201,9 +185,9 @@ Definition string_step (quote : N) (pos : nat) (rest : list N) (st : sstate) : s
                 let '(c2, sz2) := decode_rune r3 in
                 let '(hex, r4, p4) := if is_hexdigit c2 then ([c1; c2], skipn sz2 r3, (p3 + sz2)%nat)
                                       else ([c1], r3, p3) in
-                match parse_int16_32 hex with
-                | Some i => SCont p4 r4 (emit st [byte_of_z i])
-                | None => SCont p4 r4 (report st (Z.of_nat p4 - (2 + runes_golen hex)))
+                match parse_uint16_32 hex with
+                | Some i => SCont p4 r4 (emit st [i mod 256])
+                | None => SCont p4 r4 (report st (Z.of_nat pos))
                 end
               end
           end
@@ -224,7 +208,7 @@ Definition string_step (quote : N) (pos : nat) (rest : list N) (st : sstate) : s
                 else
                   let v := digits_val 8 [e; c2; c3] in
                   let p4 := (p3 + sz3)%nat in
-                  if 255 <? v then SCont p4 (skipn sz3 r3) (report st (Z.of_nat p4 - 4))
+                  if 255 <? v then SCont p4 (skipn sz3 r3) (report st (Z.of_nat pos))
                   else SCont p4 (skipn sz3 r3) (emit st [v])
               end
           end
@@ -234,10 +218,10 @@ Definition string_step (quote : N) (pos : nat) (rest : list N) (st : sstate) : s
           | Some (rs, n, full) =>
             let p3 := (p2 + n)%nat in
             let r3 := skipn n r2 in
-            if negb full then SCont p3 r3 (report st (Z.of_nat p3 - (2 + runes_golen rs)))
-            else match parse_int16_32 rs with
-                 | Some i => SCont p3 r3 (emit st (write_rune_z i))
-                 | None => SCont p3 r3 (report st (Z.of_nat p3 - (2 + runes_golen rs)))
+            if negb full then SCont p3 r3 (report st (Z.of_nat pos))
+            else match parse_uint16_32 rs with
+                 | Some i => SCont p3 r3 (emit st (encode_rune i))
+                 | None => SCont p3 r3 (report st (Z.of_nat pos))
                  end
           end
         else if e =? 85 then
@@ -246,17 +230,17 @@ Definition string_step (quote : N) (pos : nat) (rest : list N) (st : sstate) : s
           | Some (rs, n, full) =>
             let p3 := (p2 + n)%nat in
             let r3 := skipn n r2 in
-            if negb full then SCont p3 r3 (report st (Z.of_nat p3 - (2 + runes_golen rs)))
-            else match parse_int16_32 rs with
-                 | Some i => if ((1114111 <? i) || (i <? 0))%Z
-                             then SCont p3 r3 (report st (Z.of_nat p3 - (2 + runes_golen rs)))
-                             else SCont p3 r3 (emit st (write_rune_z i))
-                 | None => SCont p3 r3 (report st (Z.of_nat p3 - (2 + runes_golen rs)))
+            if negb full then SCont p3 r3 (report st (Z.of_nat pos))
+            else match parse_uint16_32 rs with
+                 | Some i => if 1114111 <? i
+                             then SCont p3 r3 (report st (Z.of_nat pos))
+                             else SCont p3 r3 (emit st (encode_rune i))
+                 | None => SCont p3 r3 (report st (Z.of_nat pos))
                  end
           end
         else match simple_esc e with
              | Some b => SCont p2 r2 (emit st [b])
-             | None => SCont p2 r2 (report st (Z.of_nat p2 - (1 + rune_golen e)))
+             | None => SCont p2 r2 (report st (Z.of_nat pos))
              end
       end
   end.
@@ -307,8 +291,7 @@ Inductive lerr :=
 | EControl | EInvalidChar | ENumber | EStringEof | EStringNewline | EStringEscape
 | EBlockEof.
 
-(* errors as reported to the handler: class and offset (an integer: the code subtracts the length
-   of the offending escape from the current offset, see errWithCurrentPos) *)
+(* errors as reported to the handler: class and offset *)
 Definition errs := list (lerr * Z).
 
 Inductive lres :=
